@@ -33,6 +33,9 @@ type Variant struct {
 	// Relay: the program has functions whose work is handed over to threads that outlive the
 	// function body (spawn chains, fan-out); the call completes when the last thread has finished.
 	Relay bool `json:"relay,omitempty"`
+	// Exits: the program has the family of functions that are left (return, break, continue, caught
+	// throw) from an operand position while other operands wait on the stack (exits.go).
+	Exits bool `json:"exits,omitempty"`
 }
 
 // state is the model of the globals.
@@ -112,7 +115,7 @@ type fnSpec struct {
 	// (nil: impossible in this state).
 	GenOK   func(r *fw.Rng, st *state, e env) []valuni.Val
 	GenFail func(r *fw.Rng, st *state, e env) []valuni.Val
-	// Only: restricts the spec to variants having the feature ("trigger", "spawn", "leaky", "relay").
+	// Only: restricts the spec to variants having the feature ("trigger", "spawn", "leaky", "relay", "exits").
 	Only string
 	// Tag: construct tag attached to every history that calls the function.
 	Tag string
@@ -1072,6 +1075,7 @@ fn fanout_fail() {
 
 	addStoredIterSpecs(add)
 	addRelaySpecs(add)
+	addExitSpecs(add)
 	return out
 }
 
@@ -1120,6 +1124,8 @@ func (v Variant) has(feature string) bool {
 		return v.Leaky
 	case "relay":
 		return v.Relay
+	case "exits":
+		return v.Exits
 	}
 	return false
 }
@@ -1142,6 +1148,9 @@ func (v Variant) Source() string {
 		sb.WriteString("import trigger minute from triggers;\n\n")
 	}
 	sb.WriteString(globalsSource(v.Init))
+	if v.Exits {
+		sb.WriteString(exitGlobals)
+	}
 	sb.WriteString("\n")
 	var parts []string
 	for _, s := range v.enabled() {
